@@ -760,6 +760,7 @@ func (c *conn) act(r *prule) {
 		}
 	case "silent":
 		c.silentTill = time.Now().Add(time.Duration(r.MS) * time.Millisecond)
+		c.after(time.Duration(r.MS+1)*time.Millisecond, func() { c.pump() })
 	case "write":
 		if r.Bytes > 0 && !c.bWantFin {
 			c.log.add(M{"ev": "wcall", "e": "b", "off": c.bWritten, "n": r.Bytes})
@@ -777,8 +778,8 @@ func (c *conn) act(r *prule) {
 
 // pump sends the peer's own data (never beyond the window a advertised, never above a's MSS) and its FIN.
 func (c *conn) pump() {
-	if !c.estab {
-		return
+	if !c.estab || time.Now().Before(c.silentTill) {
+		return // (a mute peer sends nothing; pump runs again when the silence ends)
 	}
 	lim := c.aMSS - 12
 	if lim < 1 {
